@@ -71,8 +71,8 @@ elab "lane_uniform_all" : tactic => do
       throwError "C06: lane body {n} is NOT lane-uniform: iteration i must look only at bit i of VCC / src2 / the accumulator, change only bit i of the accumulator, and do so uniformly in i"
     setGoals rest
 
-/-- **Every translated lane body is lane-uniform** (regenerated obligation; 267 bodies at the pinned
-    tree: 161 integer ones and 106 float ones whose arithmetic is opaque): on arbitrary 64-bit VCC / src2 / accumulator values, iteration `i` writes what the lane-local
+/-- **Every translated lane body is lane-uniform** (regenerated obligation over every body the translator emitted:
+    the integer ones and the float ones whose arithmetic is opaque; the run's NOTE line has the counts): on arbitrary 64-bit VCC / src2 / accumulator values, iteration `i` writes what the lane-local
     body writes given bit `i` of the masks, and changes the accumulator at bit `i` only. -/
 theorem lane_bodies_uniform : ∀ h ∈ Gen.Lane.laneHandlers, LaneUniform h := by
   unfold Gen.Lane.laneHandlers
@@ -250,7 +250,7 @@ theorem translation_matches_facts :
     Gen.Lane.coverage.length = Gen.vectorHandlers.length := by
   constructor <;> decide +kernel
 
-example : Gen.Lane.coverage.length = 329 := by decide +kernel
+example : Gen.Lane.coverage.length ≥ 300 := by decide +kernel
 
 /-- the handlers a row stands for are translated (a wrapper: all the handlers it can select) -/
 def rowTranslated (r : CovRow) : Bool :=
@@ -261,36 +261,45 @@ def rowTranslated (r : CovRow) : Bool :=
       r2.arch == r.arch && r2.name == c && (match r2.cov with | .translated _ => true | .translatedF _ => true | _ => false)
   | _ => false
 
-def covCount (p : Cov → Bool) : Nat := (Gen.Lane.coverage.filter (fun r => p r.cov)).length
-
 def namesOf (p : Cov → Bool) : List (String × String) :=
   (Gen.Lane.coverage.filter (fun r => p r.cov)).map (fun r => (r.arch, r.name))
 
-/-- **Summary of the coverage** (tripwire: a new or re-shaped handler changes it and must be looked at).
-    Of the 329 vector handler records of both ALUs
-    * 161 are covered by TRANSLATION of an integer lane body (`handler_is_vexec`; tied to the code by the
-      `c06 body` correspondence), plus the one wrapper (`runVADDI32`) that selects between two of them;
-    * 106 float handlers are covered by translation of the loop skeleton / mask handling with an opaque
-      float data path (`handler_is_vexec` holds; no body correspondence);
-    * 5 float handlers (slices + `sort`, a `log.Panic` inside a helper) and 40 DS/FLAT memory handlers and
-      helpers (`C06Mem`) — and the small listed groups — remain covered by the syntactic fit
-      (`all_vector_handlers_fit`) + the extensional per-lane composition test only;
-    * `v_readfirstlane_b32` is the documented cross-lane exception. -/
+/-- the handlers that are NOT covered by translation and are not DS/FLAT memory code, by name -/
+def untranslatedNames : List (String × String × Cov) :=
+  [ -- float handlers the translator leaves alone (slices + `sort`, a `log.Panic` inside a helper)
+    ("gcn3", "runVMED3F32", .float), ("gcn3", "runVDIVFIXUPF64", .float), ("cdna3", "runVCmpClassF32VOP3a", .float),
+    ("cdna3", "runVMED3F32", .float), ("cdna3", "runVDIVFIXUPF64", .float),
+    -- a loop inside the lane loop (bit scans)
+    ("gcn3", "runBFREVB32", .innerLoop), ("cdna3", "runBFREVB32", .innerLoop), ("cdna3", "runVFFBHU32", .innerLoop),
+    -- slices and `sort.Ints`
+    ("gcn3", "runVMED3I32", .library), ("cdna3", "runVMED3I32", .library),
+    -- the documented cross-lane instruction
+    ("gcn3", "runVREADFIRSTLANEB32", .crossLane), ("cdna3", "runVREADFIRSTLANEB32", .crossLane),
+    -- no lane loop and no operand access
+    ("gcn3", "vop3aPreprocess", .noLaneCode), ("gcn3", "vop3aPostprocess", .noLaneCode), ("cdna3", "vop3aPreprocess", .noLaneCode),
+    ("cdna3", "vop3aPostprocess", .noLaneCode), ("cdna3", "runVCmpFU64", .noLaneCode) ]
+
+/-- **Summary of the coverage** (tripwire: a handler that leaves or joins the untranslated groups changes it
+    and must be looked at; new handlers that translate, and new DS/FLAT handlers, pass). Every vector handler
+    record of both ALUs is exactly one of
+    * covered by TRANSLATION of an integer lane body (`handler_is_vexec`; tied to the code by the `c06 body`
+      and `c06 gorun` correspondence) — or the wrapper `runVADDI32`, which only selects between two of them;
+    * a float handler covered by translation of the loop skeleton / mask handling with an opaque float data
+      path (`handler_is_vexec` holds; body correspondence for those in `Gen.Lane.exactFloat`);
+    * a DS/FLAT memory handler or address helper (`C06Mem`: load-only / store-only decided);
+    * one of the 17 handlers listed in `untranslatedNames` — these, and the memory handlers, remain covered by
+      the syntactic fit (`all_vector_handlers_fit`) + the extensional per-lane composition test only
+      (`v_readfirstlane_b32` being the documented cross-lane exception). -/
 theorem coverage_summary :
-    covCount (fun c => match c with | .translated _ => true | _ => false) = 161 ∧
-    covCount (fun c => match c with | .translatedF _ => true | _ => false) = 106 ∧
-    covCount (· == .memory) = 40 ∧
-    namesOf (· == .float) = [("gcn3", "runVMED3F32"), ("gcn3", "runVDIVFIXUPF64"), ("cdna3", "runVCmpClassF32VOP3a"),
-      ("cdna3", "runVMED3F32"), ("cdna3", "runVDIVFIXUPF64")] ∧
+    (Gen.Lane.coverage.all fun r =>
+      rowTranslated r || r.cov == .memory || r.cov == .helper || untranslatedNames.contains (r.arch, r.name, r.cov)) = true ∧
+    (untranslatedNames.all fun u => Gen.Lane.coverage.contains ⟨u.1, u.2.1, u.2.2⟩) = true ∧
     namesOf (fun c => match c with | .wrapper _ => true | _ => false) = [("gcn3", "runVADDI32")] ∧
-    namesOf (· == .helper) = [("gcn3", "flatAddr"), ("gcn3", "flatAddrWithScalar"), ("cdna3", "flatAddr"), ("cdna3", "flatAddrWithScalar")] ∧
-    namesOf (· == .innerLoop) = [("gcn3", "runBFREVB32"), ("cdna3", "runBFREVB32"), ("cdna3", "runVFFBHU32")] ∧
-    namesOf (· == .library) = [("gcn3", "runVMED3I32"), ("cdna3", "runVMED3I32")] ∧
-    namesOf (· == .crossLane) = [("gcn3", "runVREADFIRSTLANEB32"), ("cdna3", "runVREADFIRSTLANEB32")] ∧
-    namesOf (· == .noLaneCode) = [("gcn3", "vop3aPreprocess"), ("gcn3", "vop3aPostprocess"), ("cdna3", "vop3aPreprocess"),
-      ("cdna3", "vop3aPostprocess"), ("cdna3", "runVCmpFU64")] ∧
-    (Gen.Lane.coverage.filter rowTranslated).length = 268 := by
+    (Gen.Lane.exactFloat.all fun e => Gen.Lane.coverage.any fun r =>
+      r.arch == e.1 && r.name == e.2 && (match r.cov with | .translatedF _ => true | _ => false)) = true := by
   decide +kernel
+
+example : (Gen.Lane.coverage.filter rowTranslated).length ≥ 250 ∧ Gen.Lane.exactFloat.length ≥ 60 := by decide +kernel
 
 example : rowTranslated ⟨"gcn3", "runVADDI32", .wrapper ["runVADDI32Regular", "runVADDI32SDWA"]⟩ = true := by decide +kernel
 
@@ -304,17 +313,20 @@ def opcodeTranslated (d : C06Facts.Dispatch) : Bool :=
 
 def aluFormat (f : String) : Bool := ["vop1", "vop2", "vop3a", "vop3b", "vopc"].contains f
 
-/-- **Opcode view**: of the 284 VOP1/VOP2/VOP3a/VOP3b/VOPC opcode-switch entries of the two ALUs, 271 run a
-    translated lane body (163 an integer one, 108 a float one); every other entry runs a handler of one of the listed categories. -/
+/-- **Opcode view**: every VOP1/VOP2/VOP3a/VOP3b/VOPC opcode-switch entry of the two ALUs runs a translated
+    lane body (integer or float) — except the entries that run one of the handlers listed in
+    `untranslatedNames` (13 entries at the pinned tree: `v_readfirstlane_b32`, `v_bfrev_b32`, `v_ffbh_u32`,
+    `v_med3_f32/i32`, `v_div_fixup_f64`, `v_cmp_class_f32_e64`, `v_cmp_f_u64`). -/
 theorem translated_opcodes :
-    (Gen.dispatch.filter (fun d => aluFormat d.format)).length = 284 ∧
-    (Gen.dispatch.filter (fun d => aluFormat d.format && opcodeTranslated d)).length = 271 ∧
-    (Gen.dispatch.filter (fun d => aluFormat d.format && !opcodeTranslated d)).all (fun d =>
-      match Gen.Lane.coverage[d.hidx]? with
-      | some r => r.arch == d.arch && r.name == d.handler &&
-        (r.cov == .float || r.cov == .innerLoop || r.cov == .library || r.cov == .crossLane || r.cov == .noLaneCode)
-      | none => false) = true := by
+    ((Gen.dispatch.filter (fun d => aluFormat d.format)).all fun d =>
+      opcodeTranslated d ||
+      (match Gen.Lane.coverage[d.hidx]? with
+       | some r => r.arch == d.arch && r.name == d.handler && untranslatedNames.contains (r.arch, r.name, r.cov)
+       | none => false)) = true := by
   decide +kernel
+
+example : (Gen.dispatch.filter (fun d => aluFormat d.format && opcodeTranslated d)).length ≥ 250 ∧
+    (Gen.dispatch.filter (fun d => aluFormat d.format && !opcodeTranslated d)).length ≤ 20 := by decide +kernel
 
 example : (Gen.dispatch.filter (fun d => d.handler == "runVADDI32" && opcodeTranslated d)).length = 3 := by decide +kernel
 
